@@ -307,7 +307,23 @@ EmitMove:
                 if (available_regs & ~in_out_regs) {
                   available_regs &= ~in_out_regs;
                 }
-                out_id = Support::ctz(available_regs);
+                uint32_t scratch_id = Support::ctz(available_regs);
+
+                if (!alt_var.out.is_initialized()) {
+                  // The register is occupied by a variable that has no destination (SA register), which means that
+                  // it would never leave it - move it to the scratch register so `out_id` becomes available.
+                  OperandSignature alt_signature = RegUtils::signature_of(alt_var.cur.reg_type());
+                  ASMJIT_PROPAGATE(
+                    emit_arg_move(
+                      Reg(alt_signature, scratch_id), alt_var.cur.type_id(),
+                      Reg(alt_signature, out_id), alt_var.cur.type_id()));
+
+                  wd.reassign(alt_id, scratch_id, out_id);
+                  alt_var.cur.set_reg_id(scratch_id);
+                }
+                else {
+                  out_id = scratch_id;
+                }
                 goto EmitMove;
               }
               else {
